@@ -8,7 +8,7 @@ from .common import MC, P, Q, RecTransport, loop_clean, new_loop, stub_uniform
 from .decoders import classify_sd, mutate, mutation_specs, run_decoder, template_sd, template_someip
 
 PROPERTY = "C03"
-BUDGET_S = {"quick": 900, "thorough": 3400}
+BUDGET_S = {"quick": 900, "thorough": 7200}
 STUBS = ["struct/bytes/bytearray/enum lowering", "option registry: equality-scan dict", "SymIP for addresses from symbolic bytes", "VirtualLoop (H03b)"]
 ASSUMPTIONS = [
     "fully symbolic buffers up to the stated sizes; larger inputs as templates (built by the independent writer) with a window of 1..4 fully symbolic bytes at every position, truncation at every position, one inserted symbolic byte, one duplicated region",
